@@ -5,6 +5,12 @@ import (
 	"encoding/hex"
 	"encoding/json"
 	"fmt"
+	"os"
+	"os/exec"
+	"runtime"
+	"strings"
+	"sync"
+	"sync/atomic"
 
 	"verifharness/internal/real"
 	"verifharness/internal/ref"
@@ -255,10 +261,125 @@ func c14Eval(c *ctx, cs c14Case) {
 	}
 }
 
+// wrappedMsg is a caller's own message type around a library message.
+type wrappedMsg struct {
+	ast.HSMSMessage
+	note string
+}
+
+// c14FirstChild: the child side of the first-use probe (see runC14). Prints FIRST-OK or FIRST-BAD lines.
+func c14FirstChild() {
+	G := runtime.NumCPU()
+	if G > 16 {
+		G = 16
+	}
+	var arrived int32
+	var wg sync.WaitGroup
+	bad := make([]string, G)
+	for g := 0; g < G; g++ {
+		wg.Add(1)
+		go func(g int) {
+			defer wg.Done()
+			hs := make([]ast.HSMSMessage, 0, 16)
+			for st := 0; st < 16; st++ {
+				hs = append(hs, ast.NewHSMSControlMessage([]byte{0, byte(g), 0, 0, 0, byte((st + g) % 16), 1, 2, 3, byte(g)}))
+			}
+			atomic.AddInt32(&arrived, 1)
+			for atomic.LoadInt32(&arrived) < int32(G) {
+			}
+			for st, m := range hs {
+				if got, want := m.Type(), ref.ControlType(0, byte((st+g)%16)); got != want && bad[g] == "" {
+					bad[g] = fmt.Sprintf("SType %d reported %q, want %q", (st+g)%16, got, want)
+				}
+			}
+		}(g)
+	}
+	wg.Wait()
+	for g, b := range bad {
+		if b != "" {
+			fmt.Printf("FIRST-BAD goroutine %d of %d: %s\n", g, G, b)
+			return
+		}
+	}
+	fmt.Println("FIRST-OK")
+}
+
 func runC14(c *ctx) {
 	c.Rule = "exhaustive: all 65536 (PType,SType) pairs x 4 fillings of the other header bytes for Type() and the generic constructor; all 65536 session ids for each request constructor; all 256 status/reason codes; reject.req over all 256x256 (pType,sType) for reason 2 and a non-2 reason; every (request kind x response constructor) pair including a data message and an undefined message as the wrong request; headers shorter than ten bytes; system bytes boundary + random. Each constructed message is also decoded and compared. non-trivial = SType defined or PType != 0; distinct by (constructor, header)"
 	c.Assume = []string{"the layout table in the property statement", "NewHSMSControlMessage with more than ten bytes is outside the stated domain (it panics; a panic is a refusal) and is not asserted"}
 	c.Exhaust = true
+	// the very first Type() calls of a process, from as many goroutines as there are cores, released by a spin barrier
+	// (the type is a function of the header from the first call on, whoever asks first). A process has only one first
+	// time, so this runs in fresh child processes of this binary, many times.
+	{
+		exe, _ := os.Executable()
+		n := c.pick(96, 960)
+		var wg sync.WaitGroup
+		sem := make(chan struct{}, 8)
+		var mu sync.Mutex
+		firstBad := ""
+		ran := 0
+		for i := 0; i < n; i++ {
+			wg.Add(1)
+			sem <- struct{}{}
+			go func() {
+				defer wg.Done()
+				defer func() { <-sem }()
+				cmd := exec.Command(exe, "-prop", "C14")
+				cmd.Env = append(os.Environ(), "VERIF_C14_FIRST=1")
+				out, err := cmd.CombinedOutput()
+				mu.Lock()
+				defer mu.Unlock()
+				if strings.Contains(string(out), "FIRST-OK") {
+					ran++
+				}
+				if strings.Contains(string(out), "FIRST-BAD") && firstBad == "" {
+					firstBad = firstLines(string(out), 3)
+				} else if err != nil && !strings.Contains(string(out), "FIRST-") && firstBad == "" {
+					firstBad = "child ended abnormally: " + firstLines(string(out), 6)
+				}
+			}()
+		}
+		wg.Wait()
+		c.NoteBulk(int64(n), int64(n))
+		c.ClassN("first-type-calls-of-a-process-made-concurrently", int64(ran))
+		if firstBad != "" {
+			c.Violation("C14/type-table/first-calls-concurrent", "in a fresh process, among the first Type() calls made at once: "+firstBad, c14Case{Op: "type-first"})
+		}
+	}
+	// a request that reaches a response constructor wrapped in a caller's own type (it embeds the library's message): it
+	// is answered like the request it wraps (session id and system bytes echoed), or refused - never answered wrongly
+	{
+		sys := []byte{0xCA, 0xFE, 0xBA, 0xBE}
+		reqs := map[string]ast.HSMSMessage{
+			"select.req":   ast.NewHSMSMessageSelectReq(0x1234, sys),
+			"deselect.req": ast.NewHSMSMessageDeselectReq(0x1234, sys),
+			"linktest.req": ast.NewHSMSMessageLinktestReq(sys),
+		}
+		for kind, req := range reqs {
+			w := wrappedMsg{HSMSMessage: req, note: "received at t0"}
+			var rsp ast.HSMSMessage
+			o := real.Try(func() {
+				switch kind {
+				case "select.req":
+					rsp = ast.NewHSMSMessageSelectRsp(w, 3)
+				case "deselect.req":
+					rsp = ast.NewHSMSMessageDeselectRsp(w, 3)
+				default:
+					rsp = ast.NewHSMSMessageLinktestRsp(w)
+				}
+			})
+			c.NoteBulk(1, 1)
+			c.Class("wrapped-request")
+			if o.Panicked {
+				continue
+			}
+			rb, qb := rsp.ToBytes(), req.ToBytes()
+			if len(rb) != 14 || !bytes.Equal(rb[4:6], qb[4:6]) || !bytes.Equal(rb[10:14], qb[10:14]) {
+				c.Violation("C14/wrapped-request-answered-wrongly/"+kind, fmt.Sprintf("request %x wrapped in a caller type was answered with %x (session id and system bytes are not echoed)", qb, rb), c14Case{Op: "wrapped/" + kind})
+			}
+		}
+	}
 	r := c.rnd.Derive(1)
 	sysTable := [][]byte{{0, 0, 0, 0}, {0xFF, 0xFF, 0xFF, 0xFF}, {0, 0, 0, 1}, {0x80, 0, 0, 0}, {1, 2, 3, 4}}
 	pickSys := func() string {
@@ -325,7 +446,7 @@ func runC14(c *ctx) {
 	for rep := 0; rep < 50; rep++ {
 		c14Eval(c, c14Case{Op: "wrong-request", Session: r.Intn(65536), Sys: pickSys()})
 	}
-	c.Required = []string{"constructed/select.req", "constructed/reject.req", "constructed/linktest.rsp", "constructed/linktest.rsp<-raw", "constructed/select.rsp<-raw", "type/undefined", "type/separate.req", "request-kind-check", "short-header"}
+	c.Required = []string{"first-type-calls-of-a-process-made-concurrently", "wrapped-request", "constructed/select.req", "constructed/reject.req", "constructed/linktest.rsp", "constructed/linktest.rsp<-raw", "constructed/select.rsp<-raw", "type/undefined", "type/separate.req", "request-kind-check", "short-header"}
 }
 
 func replayC14(c *ctx, raw json.RawMessage) {
